@@ -269,7 +269,12 @@ func (w *world) readPools(ctx sdk.Context) map[uint64]*pstate {
 			for _, a := range q.PoolAssets {
 				s.wt[a.Token.Denom] = bi(a.Weight)
 			}
-			s.W = bi(q.TotalWeight)
+			// the total is the sum of the asset weights (the formula normalises by it); the
+			// pool's own cached total is deliberately not read
+			s.W = new(big.Int)
+			for _, a := range q.PoolAssets {
+				s.W.Add(s.W, bi(a.Weight))
+			}
 		case *stableswap.Pool:
 			s.sf = map[string]*big.Int{}
 			for k, c := range q.PoolLiquidity {
